@@ -227,6 +227,9 @@ def handle (c obs : String) : String × Bool × String :=
   if obs.startsWith "repr-dependent" then
     ("-", false, "the observation changes when the timestamps are re-expressed in other locations")
   else
+  -- `dsz` / `adz`: the same cases with the timestamps counted from Go's zero instant (harness/run/ts1415_util.go); the zero
+  -- instant is a whole number of days before the epoch, so the model (which counts from 0) needs no change
+  let c := if c.startsWith "dsz " then "ds " ++ (c.drop 4).toString else if c.startsWith "adz " then "ad " ++ (c.drop 4).toString else c
   match splitAt "|" (words c) with
   | ["ds", ty] :: [[recs]] =>
     if ty == "i" then handleDs (Num.int DF) wireInt exactInt recs obs
